@@ -166,7 +166,7 @@ PROPS = {
         "gen": gen.gen_C05,
     },
     "C06": {
-        "proj": {"ops": {"files", "open", "len", "read_all", "pushrun", "push"}, "roles": ["index", "data", "cache"]},
+        "proj": {"ops": {"files", "open", "len", "range", "read_all", "pushrun", "push"}, "roles": ["index", "data", "cache"]},
         "gen": gen.gen_C06,
     },
     "C08": {
